@@ -33,6 +33,7 @@ CONSTANT KnownDeviations
 Rec == ndJsonDeserialize(IOEnv.TRACE)
 
 VARIABLES l, hdr, seq, viol,
+          nDevD,
           nDevA, nDevB,           \* scenarios explained by Dev_F06a / Dev_F06b only (counters: a list would make
                                   \* every state as large as the number of deviations seen so far)
           firstDev,               \* the first 20 scenarios explained by a deviation: <<line, finding>>
@@ -91,7 +92,22 @@ DevF06b(e) ==
         /\ f.name = "extract_bu" /\ f.cls = "zeros" /\ f.dlen >= 5 /\ f.vlen > f.dlen
         /\ e.res.segs = hdr.old.segs \o ZeroSeq((f.vlen - f.dlen) \div 4)
 
-TInit == /\ l = 1 /\ hdr = [routine |-> ""] /\ seq = 0 /\ viol = <<>> /\ nDevA = 0 /\ nDevB = 0
+(***************************************************************************)
+(* Dev_F06d: ExtractorCompactorBackup::save truncates the journal and      *)
+(* rewrites it in place without fsync.  Guard: journal, the interrupted    *)
+(* operation is save() ("wsave"), the file extract_bu is in flight and is  *)
+(* neither the complete old nor the complete new file, load() returned Ok  *)
+(* and what it shows is a prefix of the list that was being written (cut   *)
+(* short or ignored as a whole), the journal can be written again.         *)
+(***************************************************************************)
+IsPrefixOf(a, b) == Len(a) <= Len(b) /\ a = SubSeq(b, 1, Len(a))
+DevF06d(e) ==
+  /\ "F06d" \in KnownDeviations /\ hdr.routine = "journal" /\ hdr.ops[Len(hdr.ops)] = "wsave"
+  /\ e.res.ok /\ ~Has(e.res, "panic") /\ e.resave.ok
+  /\ \E i \in 1..Len(e.disk) : e.disk[i].name = "extract_bu" /\ Torn(e.disk[i])
+  /\ IsPrefixOf(e.res.segs, hdr.new.segs)
+
+TInit == /\ l = 1 /\ hdr = [routine |-> ""] /\ seq = 0 /\ viol = <<>> /\ nDevA = 0 /\ nDevB = 0 /\ nDevD = 0
          /\ firstDev = <<>>
          /\ nOld = 0 /\ nNew = 0 /\ nSame = 0 /\ nStrictBad = 0
 
@@ -100,23 +116,25 @@ Step ==
   /\ LET e == Rec[l] IN
      IF e.op = "new" THEN
         /\ hdr' = e /\ seq' = 0
-        /\ UNCHANGED <<viol, nDevA, nDevB, firstDev, nOld, nNew, nSame, nStrictBad>>
+        /\ UNCHANGED <<viol, nDevA, nDevB, nDevD, firstDev, nOld, nNew, nSame, nStrictBad>>
      ELSE IF e.op = "hang" THEN     \* the recovery never returned (driver watchdog)
         /\ viol' = Append(viol, l)
-        /\ UNCHANGED <<hdr, seq, nDevA, nDevB, firstDev, nOld, nNew, nSame, nStrictBad>>
+        /\ UNCHANGED <<hdr, seq, nDevA, nDevB, nDevD, firstDev, nOld, nNew, nSame, nStrictBad>>
      ELSE
         LET ok    == Conforms(e)
             seqok == e.seq = seq + 1
             dA    == ~ok /\ DevF06a(e)
             dB    == ~ok /\ DevF06b(e)
+            dD    == ~ok /\ DevF06d(e)
             soft  == e.mode # "c06"
-            good  == (ok \/ dA \/ dB) /\ seqok
+            good  == (ok \/ dA \/ dB \/ dD) /\ seqok
         IN /\ hdr' = hdr /\ seq' = e.seq
            /\ viol' = IF good \/ (soft /\ seqok) THEN viol ELSE Append(viol, l)
            /\ nDevA' = IF ~soft /\ seqok /\ dA THEN nDevA + 1 ELSE nDevA
            /\ nDevB' = IF ~soft /\ seqok /\ ~dA /\ dB THEN nDevB + 1 ELSE nDevB
-           /\ firstDev' = IF ~soft /\ seqok /\ (dA \/ dB) /\ Len(firstDev) < 20
-                           THEN Append(firstDev, <<l, IF dA THEN "F06a" ELSE "F06b">>) ELSE firstDev
+           /\ nDevD' = IF ~soft /\ seqok /\ ~dA /\ ~dB /\ dD THEN nDevD + 1 ELSE nDevD
+           /\ firstDev' = IF ~soft /\ seqok /\ (dA \/ dB \/ dD) /\ Len(firstDev) < 20
+                           THEN Append(firstDev, <<l, IF dA THEN "F06a" ELSE IF dB THEN "F06b" ELSE "F06d">>) ELSE firstDev
            /\ nStrictBad' = IF soft /\ ~ok THEN nStrictBad + 1 ELSE nStrictBad
            /\ nSame' = IF ok /\ IsOld(e) /\ IsNew(e) THEN nSame + 1 ELSE nSame
            /\ nOld' = IF ok /\ IsOld(e) /\ ~IsNew(e) THEN nOld + 1 ELSE nOld
@@ -126,7 +144,7 @@ Step ==
 TNext == Step
 Done == (l = Len(Rec) + 1) =>
   PrintT(<<"VERDICT", ToJson([events |-> Len(Rec), violations |-> viol, deviations |-> firstDev,
-                              dev_F06a |-> nDevA, dev_F06b |-> nDevB,
+                              dev_F06a |-> nDevA, dev_F06b |-> nDevB, dev_F06d |-> nDevD,
                               rec_old |-> nOld, rec_new |-> nNew, rec_same |-> nSame,
                               strict_nonconforming |-> nStrictBad])>>)
 =============================================================================
